@@ -194,6 +194,9 @@ func ctrInv(s *seqCounters) bool {
 
 //@ guarded_by ChannelMgr.mu: channels
 //@ guarded_by channel.mu: trDatas, trIDs
+// The master* fields are written only by the channel goroutine (run -> receivedSegData ...), which may
+// therefore read them without the lock; upload handlers must read them under the lock.
+//@ guarded_by channel.mu: masterTimescale, masterSegDuration, masterTimeShift, masterSeqNrShift; owner: run, receivedSegData, isShifted, updateAndWriteMPD, deriveAndSetBitrates, deriveAndSetFrameRates, generateSegmentTimelineNrMPD
 //@ guarded_by Receiver.noLockExists: streams
 
 //@ lock_inv ChannelMgr.mu(cm): cm.channels != nil && (all k string :: haskey(cm.channels, k) ==> cm.channels[k] != nil)
